@@ -32,6 +32,23 @@ impl Exec {
         sentinel_core::system_metric::verif::set_memory_usage(0);
         Exec { rules: HashMap::new(), entries: Vec::new(), probe_no: 0 }
     }
+    /// no reset of rules or clock: used for the health probe after a concurrent scenario
+    pub fn bare() -> Self {
+        Exec { rules: HashMap::new(), entries: Vec::new(), probe_no: 1000 }
+    }
+    pub fn probe_all(&mut self) -> String {
+        let mut bad = Vec::new();
+        for fam in ["flow", "br", "hs", "iso", "sys"] {
+            if let Err(m) = self.probe_family(fam) {
+                bad.push(format!("{}:{}", fam, m.replace(' ', "_")));
+            }
+        }
+        if bad.is_empty() {
+            "healthy".into()
+        } else {
+            format!("broken {}", bad.join(","))
+        }
+    }
 }
 
 /// `T`, `T+1`, `T-1` (total memory of this machine) or a plain number
